@@ -95,3 +95,16 @@ Theorem C11_trim_caller_dir_irrelevant : forall c caller1 caller2 test standalon
 Proof. exact trim_caller_dir_irrelevant. Qed.
 Print Assumptions C11_trim_dir_kept.
 Print Assumptions C11_trim_caller_dir_irrelevant.
+
+(* non-vacuity: every theorem of this file that has hypotheses has a concrete, non-trivial instance meeting ALL of them
+   (lemmas <Theorem>_witness / <Theorem>_applied in Proofs/WitnessesP.v); a representative one is restated here *)
+From Snaps Require Import Proofs.WitnessesP.
+Example C11_witnesses :
+  (is_abs (c_dir w11_cfg_abs) = true /\ c_filename w11_cfg_abs <> nil /\ w11_caller1 <> w11_caller2) /\
+  (Forall (fun h => is_test_file (fr_file h) = false /\ beq (fr_func h) w11_trunner = false) w11_hs /\
+   is_test_file (fr_file w11_ftest) = true /\ beq (fr_func w11_ftest) w11_trunner = false) /\
+  (Forall (fun h => is_test_file (fr_file h) = false /\ beq (fr_func h) w11_trunner = false) w11_hs_fb /\
+   beq (fr_func w11_frun) w11_trunner = true) /\
+  (c_ext w11_cfg_rel = nil /\ c_ext w11_cfg_abs <> nil) /\
+  (basename w11_caller1 = basename w11_caller3 /\ dirname w11_caller1 <> dirname w11_caller3).
+Proof. exact C11_witnesses_all. Qed.
